@@ -309,3 +309,35 @@ Definition new_value (s : state) (o : op) (d : N) : option N :=
   | Transfer _ => Some (src_value d)
   | _ => None
   end.
+
+(* ---------------------------------------------------------------- programs and crash histories *)
+(* several operations performed one after another by one process (e.g. a loop of Butler.put): the plan of each is computed
+   in the state its predecessors left; a crash may hit any step of the concatenation *)
+Fixpoint plan_seq (s : state) (os : list op) : list step :=
+  match os with
+  | [] => []
+  | o :: r => plan s o ++ plan_seq (run_steps s (plan s o)) r
+  end.
+
+(* a history whose members either complete or die at step k and are recovered by the next open *)
+Inductive hop := Done (o : op) | Crashed (o : op) (k : nat).
+Definition hop_op (h : hop) : op := match h with Done o | Crashed o _ => o end.
+Definition run_hop (s : state) (h : hop) : state :=
+  match h with
+  | Done o => run_op s o
+  | Crashed o k => crash (recover s) (plan (recover s) o) k
+  end.
+Definition runh (s : state) (hs : list hop) : state := fold_left run_hop hs s.
+
+(* the ids an insertion is about; "fresh": none of them is the id of a deletion that is still pending.  Real dataset ids
+   are new UUIDs, so a real insertion is always fresh; the model identifies id, slot and path, hence the explicit guard *)
+Definition ins_ids (o : op) : list N :=
+  match o with Put d _ | IngestCopy d | IngestMove d => [d] | Transfer l => l | _ => [] end.
+Definition fresh_ins (s : state) (o : op) : bool := forallb (fun d => negb (mem d (d_trash (cdb s)))) (ins_ids o).
+Fixpoint hist_fresh (s : state) (hs : list hop) : bool :=
+  match hs with
+  | [] => true
+  | h :: r => fresh_ins s (hop_op h) && hist_fresh (run_hop s h) r
+  end.
+
+Definition put_of (dv : N * N) : op := Put (fst dv) (snd dv).
